@@ -30,7 +30,7 @@ def _worker(job: Tuple[str, str, Any, Dict[str, Any]]) -> Dict[str, Any]:
         if hasattr(mod, "warmup"):
             mod.warmup()
         cov.start()
-        harness = getattr(mod, harness_name)
+        harness = (getattr(mod, "HARNESSES", None) or {}).get(harness_name) or getattr(mod, harness_name)
         res = sym.explore(
             harness,
             case,
